@@ -84,7 +84,97 @@ class Exit(object):
         return "<Exit %s %s %s>" % (self.kind, self.state, self.event.loc if self.event is not None else "")
 
 
+def flag_vars(func):
+    """local bool variables whose value the exploration below follows exactly: written only by their declaration and by plain
+    assignments, never captured by a lambda, never handed to a call by address or non-const reference"""
+    memo = func.__dict__.get("_flag_vars")
+    if memo is not None:
+        return memo
+    cands = {d["var"] for d in func.events("decl") if d.get("var") and (d.get("ctype") or d.get("type") or "").replace("const", "").strip() == "bool"
+             and not d.get("synthetic")}
+    if cands:
+        ndecl = {}
+        for e in func.events():
+            k = e["k"]
+            if k == "decl" and e.get("var") in cands:
+                ndecl[e["var"]] = ndecl.get(e["var"], 0) + 1
+            elif k == "assign":
+                lhs = e.get("lhs") or {}
+                if (lhs.get("v") in cands and (lhs.get("t") or "").strip() != lhs["v"].split("@")[0]) or e.get("op") != "=" and lhs.get("v") in cands:
+                    cands.discard(lhs.get("v"))
+            elif k == "incdec":
+                cands.discard((e.get("operand") or {}).get("v"))
+            elif k in ("lambda", "addrof"):
+                for r_ in e.get("refs") or []:
+                    if r_.startswith("v:"):
+                        cands.discard(r_[2:])
+            elif k in ("call", "construct"):
+                cps = e.get("cparams") or []
+                for i_, a_ in enumerate(e.get("args") or []):
+                    v_ = a_.get("v") or a_.get("root")
+                    if v_ in cands:
+                        pt = cps[i_].strip() if i_ < len(cps) else "&"
+                        if "&" in (a_.get("t") or "") or "*" in pt or ("&" in pt and not pt.startswith("const ")):
+                            cands.discard(v_)
+                if a_lam(e):
+                    for r_ in e.get("refs") or []:
+                        if r_.startswith("v:"):
+                            cands.discard(r_[2:])
+        cands = {v for v in cands if ndecl.get(v, 0) == 1}
+    func.__dict__["_flag_vars"] = cands
+    return cands
+
+
+def a_lam(e):
+    return any(a_.get("lam") for a_ in (e.get("args") or []))
+
+
 def run_automaton(func, init, step, edge=None, start=None, start_idx=0, limit=200000):
+    """see _run_automaton.  On top of the caller's state the exploration follows the value of the function's local bool flags
+    (flag_vars): an edge of a branch on such a flag is taken only when the flag's value on that path allows it (`bool more = true;
+    while (more) { ... more = false; }` is left only after the assignment)."""
+    flags = flag_vars(func)
+    if not flags:
+        return _run_automaton(func, init, step, edge, start, start_idx, limit)
+
+    def step2(st, ev):
+        us, fl = st
+        k = ev["k"]
+        if k == "decl" and ev.get("var") in flags:
+            c = ev.get("const")
+            fl = tuple(sorted([(v, x) for v, x in fl if v != ev["var"]] + ([(ev["var"], c)] if isinstance(c, bool) else [])))
+        elif k == "assign" and (ev.get("lhs") or {}).get("v") in flags:
+            v_ = ev["lhs"]["v"]
+            c = ev.get("const")
+            fl = tuple(sorted([(v, x) for v, x in fl if v != v_] + ([(v_, c)] if isinstance(c, bool) else [])))
+        r = step(us, ev)
+        if r is None:
+            return None
+        if isinstance(r, list):
+            return [(x, fl) for x in r]
+        return (r, fl)
+
+    def edge2(st, blk, k, sid):
+        us, fl = st
+        t = blk.term or {}
+        if fl and t.get("k") in ("if", "while", "for", "do", "land", "lor", "cond") and not t.get("cmp") and len(blk.succs) == 2:
+            v_ = (t.get("core") or {}).get("v")
+            if v_ in flags and ((t.get("core") or {}).get("t") or "").strip() == v_.split("@")[0]:
+                val = dict(fl).get(v_)
+                if val is not None and k != (0 if val != bool(t.get("neg")) else 1):
+                    return None
+        if edge is not None:
+            us = edge(us, blk, k, sid)
+            if us is None:
+                return None
+        return (us, fl)
+    exits, seen = _run_automaton(func, (init, ()), step2, edge2, start, start_idx, limit)
+    for x in exits:
+        x.state = x.state[0]
+    return exits, {(b_, i_, s_[0]) for b_, i_, s_ in seen}
+
+
+def _run_automaton(func, init, step, edge=None, start=None, start_idx=0, limit=200000):
     """Forward exploration of (program point, state) pairs.
 
     step(state, ev) -> new state (any hashable), or a *list* of states, or None to stop exploring this path.
@@ -166,6 +256,8 @@ def run_automaton(func, init, step, edge=None, start=None, start_idx=0, limit=20
 def events_after(func, ev, stop=None, edge_ok=None):
     """All events reachable strictly after `ev` on some path (may-reach).  stop(e) -> True stops exploring past e
     (e itself is included).  edge_ok(block, k, succ) may prune edges."""
+    if flag_vars(func):
+        return _events_flagged(func, ev.block, ev.idx + 1, stop, edge_ok)
     out = []
     seen_blocks = set()
     blk = func.blocks[ev.block]
@@ -197,6 +289,8 @@ def events_after(func, ev, stop=None, edge_ok=None):
 
 def events_from_block(func, bid, stop=None, edge_ok=None):
     """All events reachable from the start of block bid."""
+    if flag_vars(func):
+        return _events_flagged(func, bid, 0, stop, edge_ok)
     out = []
     seen = set()
     work = [bid]
@@ -216,6 +310,27 @@ def events_from_block(func, bid, stop=None, edge_ok=None):
             for k, s in enumerate(bb.succs):
                 if s is not None and (edge_ok is None or edge_ok(bb, k, s)):
                     work.append(s)
+    return out
+
+
+def _events_flagged(func, bid, idx, stop, edge_ok):
+    """events_after / events_from_block for a function with local bool flags: same answer, minus what only a path that contradicts a
+    flag's value could reach (the flags start unknown at the starting point)"""
+    out, got = [], set()
+
+    def step(st, ev):
+        if id(ev) not in got:
+            got.add(id(ev))
+            out.append(ev)
+        if stop is not None and stop(ev):
+            return None
+        return st
+
+    def edge(st, blk, k, sid):
+        if edge_ok is not None and not edge_ok(blk, k, sid):
+            return None
+        return st
+    run_automaton(func, 0, step, edge=edge, start=bid, start_idx=idx)
     return out
 
 
